@@ -44,7 +44,7 @@ func (w *World) runArgs(a Action) (args []string, cwd string, env []string) {
 		return r
 	}
 	spell := func(p string) string {
-		if a.Sp == "abs" {
+		if a.Sp == "abs" || a.Sp == "rel" || a.Sp == "" {
 			return p
 		}
 		return rel(p)
@@ -65,6 +65,10 @@ func (w *World) runArgs(a Action) (args []string, cwd string, env []string) {
 	switch a.Sp {
 	case "rel", "abs", "":
 		args = append(args, spell(w.setupPath()))
+		if a.Sp == "abs" || a.Sp == "rel" || a.Sp == "" {
+			// as under `go generate` started from a file of ANOTHER package: the variables describe that file
+			env = append(env, "GOPACKAGE=elsewhere", "GOLINE=3")
+		}
 	case "gofile":
 		env = append(env, "GOFILE="+rel(w.setupPath()), "GOPACKAGE=conv", "GOLINE=5")
 	case "both":
